@@ -45,6 +45,10 @@ def scenario (variant name : String) : Option Prog :=
   | "new", "cli_set_merge" => some (start (showCfg (setConfig id (mergeUnion mergeEdit (showCfg .done)))))
   | "new", "cli_reset_all" => some (start (resetAll (showCfg .done)))
   | "new", "cli_reset_subset" => some (start (resetSubset id (showCfg .done)))
+  -- two evo_config invocations in ONE process: main(set …) then main(reset <subset>)
+  | "new", "cli_set_then_reset" => some (start (showCfg (setConfig id (showCfg (resetSubset id (showCfg .done))))))
+  -- the functions twice in one process: set_config; reset(subset); set_config
+  | "new", "set_reset_set" => some (start (setConfig id (resetSubset id (setConfig id .done))))
   | "old", "start" => some (Old.start .done)
   | "old", "set" => some (Old.start (Old.setConfig id .done))
   | _, _ => none
